@@ -12,16 +12,21 @@ if os.path.exists(arg):
     name, model = w["program"], {k: int(v, 16) if isinstance(v, str) else v for k, v in w["model"].items()}
 else:
     name = arg
-for kv in sys.argv[2:]:
+for kv in [a for a in sys.argv[2:] if "=" in a]:
     k, v = kv.split("=")
     model[k] = int(v, 0)
 fam = name.split("#")[0]
 base = name.split("#")[1]
-seed = int(base.split(":")[-1].split("-")[0]) if fam != "special" else 0
-pl = families.programs(seed, 400 if "--thorough" in sys.argv else 40, "quick", only={fam})
+seed = int(base.split(":")[-1].split("-")[0]) if base.split(":")[-1].split("-")[0].isdigit() else 0
+if fam.startswith(("F4", "c08")):
+    pl = families.programs_c08(seed, 400 if "--thorough" in sys.argv else 30, "quick")
+elif fam == "c09":
+    pl = families.specials_c09()
+else:
+    pl = families.programs(seed, 400 if "--thorough" in sys.argv else 40, "quick", only={fam})
 p = [x for x in pl if x.name.split("#")[0] == fam and x.name.split("#")[1].split(":")[-1] == base.split(":")[-1]][0]
 for a, c in p.contracts.items():
-    print(hex(a), asm.disasm(c)[:3000])
+    print(hex(a), asm.disasm(c)[:3000]) if "-c" in sys.argv else None
 inp0 = progs.Inputs(p)
 full = progs.complete_model(model, inp0.names())
 print("inputs", {k: hex(v) for k, v in full.items()})
@@ -40,7 +45,8 @@ allh = []
 for i, (r, d) in enumerate(zip(recs, hd)):
     vals = None
     if d is not None:
-        vals = [refevm.conc(exact.inline(b)) for b in d]
+        from lib.progcheck import interp_keccak
+        vals = [refevm.conc(interp_keccak(z3.simplify(exact.inline(b)))) for b in d]
     n = bisim.normalize_pc(r.conds)
     sol = z3.Solver(); sol.set("timeout", 20000)
     for c in r.conds: sol.add(exact.inline(c))
